@@ -97,3 +97,41 @@ func zzC31HelloBytesRoundtrip() {
 	}
 	verifReach("end")
 }
+
+//verif:harness C31 presence_of_empty_extensions_survives_views unwind=4000 instrs=400000000 paths=2000
+//verif:expect end
+//verif:doc A valid ClientHello carrying extensions whose PRESENCE matters although their body is empty or minimal - quic_transport_parameters (empty), session_ticket (empty), signed_certificate_timestamp, extended_master_secret, early_data, status_request - chosen one at a time next to the usual ones: parsing through the public view (UnmarshalClientHello), clearing Raw, and marshalling again yields a hello in which the reference parser finds the same set of extension code points with the same bodies (no extension is lost or gained because an empty value turned into "absent" on the way through the views).
+func zzC31PresenceOfEmptyExtensionsSurvivesViews() {
+	extra := [][]byte{zzTLV(57, nil), zzTLV(35, nil), zzTLV(18, nil), zzTLV(23, nil), zzTLV(42, nil), zzTLV(5, []byte{1, 0, 0, 0, 0})}
+	labels := []string{"quic_transport_parameters", "session_ticket", "sct", "extended_master_secret", "early_data", "status_request"}
+	k := verifChoice("extension", len(extra))
+	raw := zzCaptureHello("capture.example", zzTLV(10, zzVec16([]byte{0, 29})), zzTLV(13, zzVec16([]byte{4, 3})), zzTLV(43, zzVec8([]byte{3, 4})),
+		zzTLV(51, zzVec16(zzCat([]byte{0, 29}, zzVec16(make([]byte, 32))))), extra[k])
+	h1, why := zzRefParseClientHello(raw)
+	if why != "" {
+		verifFail("input-is-valid", why)
+		return
+	}
+	pub := UnmarshalClientHello(raw)
+	verifAssertClass(pub != nil, "valid-hello-unmarshals", labels[k])
+	if pub == nil {
+		return
+	}
+	pub.Raw = nil
+	out, merr := pub.Marshal()
+	verifAssertClass(merr == nil, "marshal-after-clearing-raw", labels[k])
+	if merr != nil {
+		return
+	}
+	h2, why2 := zzRefParseClientHello(out)
+	verifAssertClass(why2 == "", "remarshalled-hello-parses-strictly", labels[k]+":"+why2)
+	if why2 != "" {
+		return
+	}
+	for _, e := range h1.exts {
+		b, has := h2.ext(e.typ)
+		verifAssertClass(has && zzBytesEq(b, e.body), "extension-kept-through-the-views", labels[k])
+	}
+	verifAssertClass(len(h2.exts) == len(h1.exts), "no-extension-gained", labels[k])
+	verifReach("end")
+}
